@@ -205,7 +205,7 @@ def run_queue_scenarios(chk, drv, model, scs, tag):
             chk.violation("queue-driver-answer", "unparsable driver answer", dict(scenario=lines[k], answer=a[:500], kind="queue"), found_input=False, broken="harness/cpp/queue_driver.cpp")
             continue
         if sc["alg"] == "serial":
-            mreq.append("saccepts %s" % (",".join(tr["labels"]) if tr["labels"] else "."))
+            mreq.append("saccepts v1 %s" % (",".join(tr["labels"]) if tr["labels"] else "."))
         else:
             mreq.append("accepts %d %s %s" % (sc["lanes"], sc["alg"], ",".join(tr["labels"]) if tr["labels"] else "."))
         idx.append(k)
@@ -577,7 +577,7 @@ def run_tsan(chk, tmp):
     flag = os.path.join(tmp, "tsan-released.flag")
     rel = ("printf 'llbuild.1\\n%%s\\n' \"$LLBUILD_TASK_ID\" >&$LLBUILD_CONTROL_FD; i=0; while [ ! -e %s ] && [ $i -lt 1000 ]; do sleep 0.01; i=$((i+1)); done; echo got") % flag
     groups = []   # (name, [lines]) each group = one driver process
-    scs = list(CORPUS) + [gen_scenario(rng) for _ in range(240)]
+    scs = list(CORPUS) + list(CORPUS_SERIAL) + [gen_scenario(rng) for _ in range(240)] + [gen_serial(rng) for _ in range(40)]
     for i in range(0, len(scs), 35):
         groups.append(("queue-mixes-%d" % (i // 35), [scenario_line(x) for x in scs[i:i + 35]]))
     groups.append(("lane-release", [proc_line(1, -1, None, [proc_job(sh_argv(rel, "/bin/bash"), control=True), proc_job(sh_argv("echo j1; : > %s" % flag))])]))
